@@ -52,6 +52,11 @@ def canon(kind, out, real):
         drop = ("invalid-backend-ref",) if real else ()
         return {"confs": [[_ups(c.get("http")), _ups(c.get("stream"))] for c in (out.get("confs") or [])],
                 "views": [[_table(v.get("http"), drop), _table(v.get("stream"))] for v in (out.get("views") or [])]}
+    if kind == "hist":
+        drop = ("invalid-backend-ref",) if real else ()
+        return {"changes": list(out.get("changes") or []),
+                "views": [[_table(v.get("http"), drop), _table(v.get("stream"))] for v in (out.get("views") or [])],
+                "confs": [[_ups(c.get("http")), _ups(c.get("stream"))] for c in (out.get("confs") or [])]}
     if kind == "pipeE":
         return {"conf": _ups(out.get("conf")), "upstreams": _conf(out.get("upstreams"))}
     if kind == "faults":
@@ -72,7 +77,7 @@ def _obligations(ctx):
         if rc not in (0, 3):
             raise SystemExit(f"translator crashed (framework error):\n{err}")
         ok = True
-        for mod in ("NGF.Props.C13Handler", "NGF.Props.C13"):
+        for mod in ("NGF.Props.C13Handler", "NGF.Props.C13History", "NGF.Props.C13"):
             ok = ctx.obligations(mod) and ok
         return ok
 
@@ -181,6 +186,25 @@ def process(ctx, st, lines):
             h["seq:" + ("equal" if o.get("eq") else "differ") + ("/same-length" if len(i["new"]) == len(i["old"]) else "/other-length")] += 1
             if i["new"] and len(i["new"]) == len(i["old"]):
                 st.nontrivial.add(key)
+        elif k == "hist":
+            mode = "plus" if i["plus"] else "oss"
+            refd = False   # some route exists (its Services are referenced)
+            late = False
+            seen_unreferenced = set()
+            for b, ch in zip(i.get("batches") or [], o.get("changes") or []):
+                h["hist_%s_batch:%s/%s" % (mode, ch, "single-event" if len(b) == 1 else "multi-event")] += 1
+                for e in b:
+                    h["hist_event:%s %s%s" % (e["op"], e["kind"], (" (" + e["note"] + ")") if e.get("note") else "")] += 1
+                    if e["kind"] == "slice" and e["op"] == "upsert" and not refd:
+                        seen_unreferenced.add(e["slice"]["obj"])
+                    if e["kind"] == "route" and e["op"] == "upsert":
+                        refd = True
+                    if (refd and len(b) == 1 and e["kind"] == "slice" and ch == "endpoints" and
+                            (e.get("name") in seen_unreferenced or (e.get("slice") or {}).get("obj") in seen_unreferenced)):
+                        late = True
+            if late:
+                h["hist_%s_late_reference_then_slice_change_alone" % mode] += 1
+                st.nontrivial.add(key)
         elif k == "pipeE":
             conf = o.get("conf") or []
             h["pipeE_upstreams:%d" % min(len(conf), 6)] += 1
@@ -236,11 +260,11 @@ def run(ctx):
     n_corpus = st.n
     # (mode, cases per round, seed offset); thorough = 10 rounds with different seeds (memory stays bounded)
     plan = (("resolve", 1500, 0), ("pipe", 400, 104729), ("plus", 250, 1299709), ("e2e", 150, 15485863),
-            ("seq", 400, 32452843), ("faults", 300, 49979687), ("pipeE", 150, 67867967))
+            ("seq", 400, 32452843), ("faults", 300, 49979687), ("pipeE", 150, 67867967), ("hist", 300, 86028121))
     rounds, maxops = (1, 8) if ctx.tier == "quick" else (30, 14)
     if ctx.tier == "thorough":
         plan = (("resolve", 10000, 0), ("pipe", 2000, 104729), ("plus", 600, 1299709), ("e2e", 400, 15485863),
-                ("seq", 2000, 32452843), ("faults", 800, 49979687), ("pipeE", 300, 67867967))
+                ("seq", 2000, 32452843), ("faults", 800, 49979687), ("pipeE", 300, 67867967), ("hist", 800, 86028121))
     for rnd in range(rounds):
         for mode, n, off in plan:
             process(ctx, st, ctx.harness(["-mode", mode, "-seed", ctx.seed + off + 7919 * rnd, "-n", n,
@@ -259,7 +283,9 @@ def run(ctx):
                 "returned, pipeline cases with >=1 resolved endpoint, Plus sequences (synthetic configurations and "
                 "end-to-end EndpointSlice histories) with >=1 endpoints-only step that changed a server set through the API, "
                 "serversEqual pairs of equal non-zero length, fault sequences in which a batch with a recorded error is followed by a "
-                "quiet batch (the retry), pipeline clusters with >=2 upstreams of which >=1 has endpoints",
+                "quiet batch (the retry), pipeline clusters with >=2 upstreams of which >=1 has endpoints, event histories in "
+                "which a slice first seen while no route existed is changed alone in a batch after a route exists and the real "
+                "processor reports EndpointsOnlyChange",
         "samples": st.samples,
         "traces_validated_against_impl": st.n - st.diffs,
         "correspondence_diffs": st.diffs,
@@ -284,6 +310,8 @@ def run(ctx):
         "NGINX; a failed reload leaves NGINX running what it held; NGINX Plus state files survive reloads (also while their "
         "upstream is absent from the configuration) and are shared by http and stream upstreams of one name",
         "'the handler reports the batch as successful' = it logged no \"Failed to update NGINX configuration\" error during that batch",
+        "hist: one Gateway that every HTTPRoute attaches to, same-namespace backendRefs; the fake client plays the informer "
+        "cache and is updated before the event is delivered; no faults",
         "pipeE: clusters inside the fragment of Model/Pipeline.lean (decoded by PipelineRefsTie.toScenarioR), NGINX OSS, no NginxProxy (IPFamily Dual)",
     ], trusted=[
         "harness/c13/pipee.go: upstream blocks / proxy_pass / split_clients values read from the real http.conf by line regexes",
